@@ -22,6 +22,22 @@ CLAIMED["C10"] = dict(
     technique="contract-based deductive verification: symbolic execution with z3 proxies, modular contract cut of candidate.Match, exhaustive finite enumeration end to end",
     design="DESIGN.md section 4 (C10)")
 
+CLAIMED["C11"] = dict(
+    text="Proof by induction on statement trees: for every AST node class (children opaque) and a symbolic loop depth d >= 0, the real ValidateFlowStatementVisitor is executed; visits of children are answered by the induction hypothesis (raises and clears valid iff misplaced, lemma misplaced => depth 0); z3 discharges child depth, valid flag and exception clauses. The shared visitor machinery (ForEachChild/_Traverse of every node class, default traversal, MRO dispatch) is proved per class. A bounded end-to-end enumeration of all statement trees up to nesting depth 2 supplies replayable witnesses (labelled bounded).",
+    note="Trusted: CPython, pyvc, z3. Representation assumption: loop depth = visitor context (int). The 'innermost loop' clause is an obligation of the lowering (C01/C14 families, not yet built) and is NOT covered here. Pipeline wiring (a failing pass stops compilation) is exercised only by the bounded e2e family.",
+    technique="contract-based deductive verification: inductive step per node class with the induction hypothesis as contract stub for child visits, symbolic depth, z3",
+    design="DESIGN.md section 4 (C11)")
+CLAIMED["C12"] = dict(
+    text="Proof by induction: Context.Add/Get verified on all context chains of depth 1-4 over a name universe (exhaustive-finite, uniform in names); every node class is visited by the real ValidateVariableNamesVisitor with opaque children: scope nodes give all children one fresh context chained to the incoming one, non-scope nodes pass the context through, declarations add to the context they are visited with, parameters are declared before the body, a redeclaration below clears valid. A bounded end-to-end grid of block structures x declaration positions x names supplies replayable witnesses.",
+    note="Trusted: CPython, pyvc. The typing-scope mirror (ComputeTypes) and the flat per-function map of the lowering are covered only by the bounded e2e grid so far.",
+    technique="contract-based deductive verification: inductive step per node class with opaque children; exhaustive finite chains",
+    design="DESIGN.md section 4 (C12)")
+CLAIMED["C13"] = dict(
+    text="Proof: the bounds pass is executed on ArrayExpression nodes whose parent type has symbolic sizes (arrays rank 1-3, vectors, matrices) and a symbolic literal index; z3 proves valid is cleared iff v < 0 or v >= first dimension. The type of p[i] is proved to drop the first dimension (symbolic sizes). Index type rule, mask rule (all 7380 masks) and swizzle pass (7380 masks x vector sizes 1-4) are decided by complete enumeration; reachability of every ArrayExpression by the inductive visitor step. Bounded end-to-end grid for witnesses.",
+    note="Trusted: CPython, pyvc, z3; diagnostic formatting cut. Signed-literal lexing clause not covered (regular expressions).",
+    technique="contract-based deductive verification: symbolic execution of the real validators with z3 proxies; exhaustive finite enumeration of masks; inductive visitor step",
+    design="DESIGN.md section 4 (C13)")
+
 NOT_YET = "not built yet in this round (design in DESIGN.md section 4); will be claimed when its obligations run"
 NA = {
     "C17": "pickle round trip across processes is the whole property; no contract within reach of the technique can decide it (DESIGN.md section 5)",
